@@ -75,6 +75,14 @@ class PT(PaneBase, in_format=('tuple',), out_format='tuple'):
     b: Optional[str] = None
 
 
+class PI(PaneBase, in_format=('tuple', 'struct')):
+    """an init=False field declared BEFORE other positional fields (positional binding must skip it)"""
+    x: int
+    scale: float = field(init=False, default=1.5)
+    n: int = 0
+    label: str = ''
+
+
 class VX(PaneBase):
     t: Literal['x'] = 'x'
     a: int = 0
@@ -136,13 +144,15 @@ TYPES = {
     'cond_len': t.Annotated[t.List[int], len_range(min=1, max=2)],
     'cond_raise': t.Annotated[int, Condition(_raising_pred, 'pred')],
     'cond_nested': t.List[t.Annotated[int, Positive]],
-    'p1': P1, 'p2': P2, 'ph': PH, 'pal': PAl, 'pt': PT, 'pn': PN,
+    'p1': P1, 'p2': P2, 'ph': PH, 'pal': PAl, 'pt': PT, 'pn': PN, 'pi': PI,
     'range': Range[int],
     'list_p1': t.List[P1], 'dict_p2': t.Dict[str, P2],
     'tag_int': t.Annotated[t.Union[VX, VY], Tagged('t')],
     'tag_ext': t.Annotated[t.Union[VX, VY], Tagged('t', external=True)],
     'tag_adj': t.Annotated[t.Union[VX, VY], Tagged('t', external=('t', 'c'))],
     'picky': PickyDict,
+    'decimal': __import__('decimal').Decimal,
+    'fraction': __import__('fractions').Fraction,
     'date': datetime.date,
     'pattern': t.Pattern[str],
 }
@@ -168,7 +178,7 @@ SAMPLES = [None, True, 0, 1, -1, 2.5, float('nan'), 'a', '', b'x', [], [1], [1, 
 # vocabulary per converter so that the keys the converter distinguishes are all present
 VOCAB = {
     'struct': ('a', 'b', 'zz'), 'p1': ('a', 'b', 'zz'), 'p2': ('a', 'b', 'zz'), 'ph': ('a', 'b', 'zz'),
-    'pal': ('a_b', 'aB', 'ab'), 'range': ('start', 'end', 'n'), 'pn': ('p', 'q', 'zz'),
+    'pal': ('a_b', 'aB', 'ab'), 'range': ('start', 'end', 'n'), 'pn': ('p', 'q', 'zz'), 'pi': ('x', 'n', 'scale'),
     'tag_int': ('t', 'a', 'zz'), 'tag_ext': ('x', 'y', 'zz'), 'tag_adj': ('t', 'c', 'zz'),
     'dict_si': ('a', 'b', ''), 'counter': ('a', 'b', ''), 'picky': ('a', 'b', ''),
 }
@@ -178,11 +188,11 @@ ACC = {'tuple_fix': 'B', 'tuple_lit': 'B', 'range': None, 'tag_adj': None, 'tag_
        'pt': 'A'}
 REJ = {'any': None}
 MAPPISH = {'any', 'dict_si', 'dict_if', 'counter', 'ddict', 'struct', 'union', 'p1', 'p2', 'ph', 'pal', 'range', 'dict_p2',
-           'tag_int', 'tag_ext', 'tag_adj', 'vol', 'picky', 'pn'}
+           'tag_int', 'tag_ext', 'tag_adj', 'vol', 'picky', 'pn', 'pi'}
 SEQISH = {'any', 'list_int', 'seq_any', 'set_int', 'tuple_var', 'tuple_fix', 'tuple_lit', 'union', 'opt_list', 'vol',
           'cond_len', 'cond_nested', 'nested', 'nested_ragged', 'p2', 'ph', 'range', 'list_p1', 'union_ctor', 'lit', 'str',
-          'pt'}
-TEXT = {'date', 'pattern'}      # text parsed by stdlib C/regex code: concretised vocabulary (td_text)
+          'pt', 'pi'}
+TEXT = {'date', 'pattern', 'decimal', 'fraction'}      # text parsed by stdlib C/regex code: concretised vocabulary (td_text)
 # converters whose target constructor realises a symbolic int (complex(), int subclass __new__, float()): small ints
 SMALLINT = {'complex', 'cond_rng', 'range', 'myint', 'delegate'}
 NO_F = {'complex'}              # complex(symbolic float) realises without end
@@ -454,6 +464,19 @@ def b_text(sel):
         return TEXTS[8]
 
 
+NUMTEXTS = ('1.5', 'abc', '1/0', '', 'nan', 5, 1.5, float('inf'), float('nan'), 10 ** 400, True, None, '1/3', [1])
+
+
+def b_numtext(sel):
+    """numeric text / numbers that make a stdlib constructor (Decimal, Fraction, float, complex) succeed or raise"""
+    n = 0
+    for x in NUMTEXTS:
+        if n == sel:
+            return x
+        n += 1
+    return None
+
+
 _L = "0 <= {k} <= 5"
 _L3 = "0 <= {k} <= 2"
 # name -> (converter, signature, pre, expression building v, witnesses)
@@ -476,6 +499,9 @@ TD = {
                "0 <= n <= 3 and 0 <= ka <= 5 and 0 <= kb <= 2 and 0 <= kc <= 2",
                "b_seq(n, ka, ia, sa, kb, ib, sb, kc, ic, sc, tup)", (0, -1)),
     'pt_seq': ('pt', "n: int, ka: int, ia: int, sa: str, kb: int, ib: int, sb: str, kc: int, ic: int, sc: str, tup: bool",
+               "0 <= n <= 3 and 0 <= ka <= 5 and 0 <= kb <= 2 and 0 <= kc <= 2",
+               "b_seq(n, ka, ia, sa, kb, ib, sb, kc, ic, sc, tup)", (0, -1)),
+    'pi_seq': ('pi', "n: int, ka: int, ia: int, sa: str, kb: int, ib: int, sb: str, kc: int, ic: int, sc: str, tup: bool",
                "0 <= n <= 3 and 0 <= ka <= 5 and 0 <= kb <= 2 and 0 <= kc <= 2",
                "b_seq(n, ka, ia, sa, kb, ib, sb, kc, ic, sc, tup)", (0, -1)),
     'ph_seq': ('ph', "n: int, ka: int, ia: int, sa: str, kb: int, ib: int, sb: str, kc: int, ic: int, sc: str, tup: bool",
@@ -508,6 +534,12 @@ TD = {
              "0 <= pk <= 4 and 0 <= ka <= 5 and 0 <= qk <= 1 and kb == 0", "b_pn(pk, ka, ia, sa, qk, kb, ib, sb, he)", (0, -1)),
     'pn_q': ('pn', "pk: int, ka: int, ia: int, sa: str, qk: int, kb: int, ib: int, sb: str, he: bool",
              "pk == 0 and ka == 2 and 2 <= qk <= 5 and 0 <= kb <= 2 and not he", "b_pn(pk, ka, ia, sa, qk, kb, ib, sb, he)", (0, -1)),
+    'decimal_num': ('decimal', "sel: int", "0 <= sel <= 13", "b_numtext(sel)", (0, -1)),
+    'fraction_num': ('fraction', "sel: int", "0 <= sel <= 13", "b_numtext(sel)", (0, -1)),
+    'float_num': ('float', "sel: int", "0 <= sel <= 13", "b_numtext(sel)", (0, -1)),
+    'complex_num': ('complex', "sel: int", "0 <= sel <= 13", "b_numtext(sel)", (0, -1)),
+    'tuple_fix_num': ('tuple_fix', "sel: int", "0 <= sel <= 13", "[1, b_numtext(sel)]", (0, -1)),
+    'p1_num': ('p1', "sel: int", "0 <= sel <= 13", "{'a': 1, 'b': b_numtext(sel)}", (0, -1)),
     'date_text': ('date', "sel: int", "0 <= sel <= 8", "b_text(sel)", (0, -1)),
     'pattern_text': ('pattern', "sel: int", "0 <= sel <= 8", "b_text(sel)", (0, -1)),
 }
@@ -541,5 +573,5 @@ def warm(fn):
 def export(ns):
     """Names the generated bodies need in the harness module's namespace."""
     for k in ('obligation', 'gv', 'gvf', 'lf', 'lf3', 'b_tag_int', 'b_tag_ext', 'b_tag_adj', 'b_range', 'b_seq', 'b_struct2',
-              'b_pal', 'b_nested', 'b_pn', 'b_text', 'b_range_seq'):
+              'b_pal', 'b_nested', 'b_pn', 'b_text', 'b_range_seq', 'b_numtext'):
         ns[k] = globals()[k]
